@@ -163,9 +163,14 @@ Proof.
   apply frame_on_bnd; [destruct (b_wrote x); [apply frame_on_refl | apply b_wh_on]|].
   intro y. destruct (b_stream y); [apply frame_h_on, h_fl_frame | cbn; apply frame_on_refl].
 Qed.
+Lemma b_rf_on b x : frame_on x (out_st (b_rf b x)).
+Proof.
+  destruct b as [|b0 b]; [|apply b_wr_on]. cbn [b_rf].
+  destruct (b_active x); [|apply frame_on_refl]. destruct (b_wrote x); [apply frame_on_refl | apply b_wh_on].
+Qed.
 Lemma step_on o x : frame_on x (out_st (step o x)).
 Proof.
-  destruct o; cbn [step out_st]; [| apply b_wh_on | apply b_wr_on | apply b_fl_on | apply frame_on_refl].
+  destruct o; cbn [step out_st]; [| apply b_wh_on | apply b_wr_on | apply b_fl_on | apply frame_on_refl | apply b_rf_on].
   unfold b_sethdr. destruct (b_active x); [apply frame_on_setb | apply frame_on_chdr].
 Qed.
 Lemma run_script_on ops : forall x, frame_on x (out_st (run_script ops x)).
@@ -338,11 +343,11 @@ Proof.
   destruct m; cbn [enter_templates] in H; rewrite H; reflexivity.
 Qed.
 
-Lemma panic_after_write_streamed et c path ae sets s ws rest ret err :
+Lemma panic_after_write_streamed et c path ae sets s ws pv rest ret err :
   forallb set_ok sets = true -> redir_hit c path = false -> status_rule c path = None -> internal_hit c path = false ->
   valid_code s = true -> bodyless s = false ->
   should_buffer (tmode_of c path) (hs_fun sets []) = false ->
-  let x := serve et c path ae (sets ++ OWh s :: map wop_op ws ++ OPanic :: rest) ret err in
+  let x := serve et c path ae (sets ++ OWh s :: map wop_op ws ++ OPanic pv :: rest) ret err in
   cm x = Some s /\ sup x = panic_sup c /\ view x = (false, wbody ws ++ panic_body et c).
 Proof.
   intros Hs Hrd Hr Hit Hv Hb Hsb.
@@ -353,10 +358,10 @@ Proof.
   destruct (commit_streamed m sets s (entry3 act hd mm) F0 Bm Hs Hv Hsb) as (y0 & E0 & I0).
   destruct (inv3_wops 0%nat s ws Hb [] y0 I0) as (y1 & acc1 & E1 & I1 & C1 & _ & _).
   cbn [concat app] in C1.
-  set (ops := sets ++ OWh s :: map wop_op ws ++ OPanic :: rest).
+  set (ops := sets ++ OWh s :: map wop_op ws ++ OPanic pv :: rest).
   assert (Hrun : run_script ops (enter_templates m (entry3 act hd mm)) = Pan y1).
-  { unfold ops. change (sets ++ OWh s :: map wop_op ws ++ OPanic :: rest)
-      with (sets ++ [OWh s] ++ (map wop_op ws ++ OPanic :: rest)).
+  { unfold ops. change (sets ++ OWh s :: map wop_op ws ++ OPanic pv :: rest)
+      with (sets ++ [OWh s] ++ (map wop_op ws ++ OPanic pv :: rest)).
     rewrite app_assoc, run_app, E0. cbn [bnd]. rewrite run_app, E1. reflexivity. }
   assert (Hon : frame_on (enter_templates m (entry3 act hd mm)) y1).
   { pose proof (run_script_on ops (enter_templates m (entry3 act hd mm))) as Q. rewrite Hrun in Q. exact Q. }
@@ -395,9 +400,9 @@ Qed.
 
 (* templates was still buffering: nothing has reached the connection, the panic is answered
    like a panic before anything was written and the buffered response is dropped *)
-Lemma probe_buffered_pan m sets s ws rest ret err X :
+Lemma probe_buffered_pan m sets s ws pv rest ret err X :
   m <> TOff -> forallb set_ok sets = true -> should_buffer m (hs_fun sets []) = true ->
-  probe (sets ++ OWh s :: map wop_op ws ++ OPanic :: rest) ret err (set_b X m false false 200 [] []) =
+  probe (sets ++ OWh s :: map wop_op ws ++ OPanic pv :: rest) ret err (set_b X m false false 200 [] []) =
   HPan (set_b X m true false s (hs_fun sets []) (wbody ws)).
 Proof.
   intros Hm Hs Hsb. unfold probe.
@@ -412,22 +417,22 @@ Proof.
   destruct X; reflexivity.
 Qed.
 
-Lemma panic_after_write_buffered et c path ae sets s ws rest ret err :
+Lemma panic_after_write_buffered et c path ae sets s ws pv rest ret err :
   forallb set_ok sets = true -> redir_hit c path = false -> status_rule c path = None -> internal_hit c path = false ->
   should_buffer (tmode_of c path) (hs_fun sets []) = true ->
-  let x := serve et c path ae (sets ++ OWh s :: map wop_op ws ++ OPanic :: rest) ret err in
+  let x := serve et c path ae (sets ++ OWh s :: map wop_op ws ++ OPanic pv :: rest) ret err in
   cm x = Some 500 /\ sup x = 0%nat /\ view x = (false, panic_body et c).
 Proof.
   intros Hs Hrd Hr Hit Hsb.
   rewrite serve_eq, Hrd, Hr, Hit.
   set (act := c_gzip c && ae). set (hd := c_header c). set (m := tmode_of c path) in *. set (mm := mime_ct c path).
   assert (Hm : m <> TOff) by (intro Q; rewrite Q in Hsb; discriminate Hsb).
-  set (ops := sets ++ OWh s :: map wop_op ws ++ OPanic :: rest).
+  set (ops := sets ++ OWh s :: map wop_op ws ++ OPanic pv :: rest).
   set (x1 := set_b (entry3 act hd mm) m true false s (hs_fun sets []) (wbody ws)).
   assert (Hin : mid false None mm false (templates_mw m (probe ops ret err)) (entry act hd) = HPan x1).
   { rewrite mid_pass. fold (entry3 act hd mm). rewrite (templates_mw_on _ _ _ Hm).
     unfold templates_on, templates_on_p, buf_reset, ops.
-    rewrite (probe_buffered_pan m sets s ws rest ret err (entry3 act hd mm) Hm Hs Hsb). reflexivity. }
+    rewrite (probe_buffered_pan m sets s ws pv rest ret err (entry3 act hd mm) Hm Hs Hsb). reflexivity. }
   assert (F1 : fresh x1) by (apply fresh_set_b; apply fresh_entry3).
   assert (G1 : gz_on x1 = act) by (unfold x1; destruct act, hd, mm; reflexivity).
   unfold panic_body.
@@ -686,7 +691,8 @@ Lemma script_ok ops : forall x, Lb x -> wh_first (bcomm x) ops = true ->
 Proof.
   induction ops as [|o ops IH]; intros x L W.
   - cbn. rewrite orb_false_r. split; [exact L|]. split; [reflexivity|]. intros y Q; discriminate Q.
-  - destruct o as [k v|s|b| |]; cbn [run_script step wh_first touched is_write_op orb panics] in *.
+  - destruct o as [k v|s|b| |pv|b]; [| | | | |destruct b as [|b0 b]; [discriminate W|]];
+      cbn [run_script step b_rf wh_first touched is_write_op orb panics] in *.
     + destruct (b_sethdr_ok k v x L) as [L' C']. cbn [bnd]. rewrite <- C' in W |- *. exact (IH _ L' W).
     + apply andb_true_iff in W as [W Wr]. apply andb_true_iff in W as [W W3]. apply andb_true_iff in W as [W1 W2].
       destruct (b_wh_ok s x L) as (y & E & Ly & Cy); [destruct (bcomm x); [discriminate W1|reflexivity] | unfold valid_code; lia |].
@@ -699,6 +705,9 @@ Proof.
       rewrite E. cbn [bnd]. assert (Wr' : wh_first (bcomm y) ops = true) by (rewrite Cy; exact W). destruct (IH y Ly Wr') as (A & B & C). rewrite Cy in B.
       rewrite orb_true_r. auto.
     + cbn. rewrite orb_false_r. auto.
+    + destruct (b_wr_ok (b0 :: b) x L) as (y & E & Ly & Cy).
+      rewrite E. cbn [bnd]. assert (Wr' : wh_first (bcomm y) ops = true) by (rewrite Cy; exact W). destruct (IH y Ly Wr') as (A & B & C). rewrite Cy in B.
+      rewrite orb_true_r. auto.
 Qed.
 
 (* what a handler hands back to the directive around it *)
